@@ -974,6 +974,9 @@ func (e *SEnv) call(x *SCall) Val {
 			return boolVal(sx("ssuffix", arg(0).S[0], arg(1).S[0]))
 		case "contains":
 			return boolVal(sx("scontains", arg(0).S[0], arg(1).S[0]))
+		case "trimRight":
+			vc.declareUF("strimright", "(Str Str) Str")
+			return Val{T: tyString, S: []Term{sx("strimright", arg(0).S[0], arg(1).S[0])}}
 		case "lower":
 			return Val{T: tyString, S: []Term{sx("slower", arg(0).S[0])}}
 		case "typeIs":
